@@ -28,6 +28,7 @@ Proof. induction l as [|s r IH]; intros; cbn [check_block]; [reflexivity | rewri
 
 Lemma check_stmt_loop idx arg x path s b : loop_body s = Some b ->
   check_stmt idx arg x path s =
+    fail_if idx (nonempty b) R_EMPTY path ++
     fail_if idx (foreach_allowed idx) R_FOREACH_SCOPE path ++
     fail_if idx (xle (xjoin x (xout_block x b)) (xout_block (xjoin x (xout_block x b)) b)) R_LOOP path ++
     check_block idx true (xjoin x (xout_block x b)) path 0 b.
@@ -37,7 +38,8 @@ Proof.
 Qed.
 
 Lemma check_stmt_if idx arg x path s b : if_body s = Some b ->
-  check_stmt idx arg x path s = fail_if idx arg R_IF_SCOPE path ++ check_block idx arg x path 0 b.
+  check_stmt idx arg x path s =
+    fail_if idx (nonempty b) R_EMPTY path ++ fail_if idx arg R_IF_SCOPE path ++ check_block idx arg x path 0 b.
 Proof.
   intros H; destruct s; cbn [if_body] in H; try discriminate; inversion H; subst;
     cbn [check_stmt]; rewrite check_blk_eq; reflexivity.
@@ -53,6 +55,9 @@ Proof. induction l as [|s r IH]; intros; cbn [sends_block]; [reflexivity | rewri
 
 Lemma fail_if_nil idx ok r p : fail_if idx ok r p = [] -> ok = true.
 Proof. unfold fail_if; destruct ok; [reflexivity | discriminate]. Qed.
+
+Lemma nonempty_neq l : nonempty l = true -> l <> [].
+Proof. destruct l; [discriminate | intros _ C; discriminate]. Qed.
 
 (* ------------------------------------------------------------------ the order on xstate *)
 Lemma xle_refl a : xle a a = true.
@@ -175,6 +180,7 @@ Proof.
     pose proof Hc as Hc0.
     cbn [check_block] in Hc. apply app_eq_nil in Hc as [Q1 Q2].
     rewrite (check_stmt_loop idx a xa (path ++ [i]) s b H) in Q1.
+    apply app_eq_nil in Q1 as [Hne Q1].
     apply app_eq_nil in Q1 as [Hscope Q1]. apply app_eq_nil in Q1 as [Hloop Hbody].
     apply fail_if_nil in Hloop.
     rewrite (xout_stmt_body xa s b (or_introl H)) in Q2.
@@ -185,7 +191,7 @@ Proof.
     assert (Hc_e : check_block idx a e path i (s :: r) = []).
     { cbn [check_block]. rewrite (check_stmt_loop idx a e (path ++ [i]) s b H).
       rewrite (xout_stmt_body e s b (or_introl H)). rewrite Habs.
-      rewrite Hscope, Hbody, Q2. unfold fail_if. rewrite Hloop. reflexivity. }
+      rewrite Hne, Hscope, Hbody, Q2. unfold fail_if. rewrite Hloop. reflexivity. }
     assert (Hle2 : xle e (xfinal xc t1) = true) by (eapply xle_trans; [exact Hloop | exact X1]).
     destruct (IHrun2 _ _ _ _ Hc_e Hle2) as [T2 X2].
     rewrite trace_okb_app, T1, T2, xfinal_app. split; [reflexivity|].
@@ -200,7 +206,7 @@ Proof.
   - (* if, taken *)
     cbn [check_block] in Hc. apply app_eq_nil in Hc as [Q1 Q2].
     rewrite (check_stmt_if idx true xa (path ++ [i]) s b H) in Q1.
-    apply app_eq_nil in Q1 as [_ Hbody].
+    apply app_eq_nil in Q1 as [_ Q1]. apply app_eq_nil in Q1 as [_ Hbody].
     rewrite (xout_stmt_body xa s b (or_intror H)) in Q2.
     destruct (IHrun1 _ _ _ _ Hbody Hle) as [T1 X1].
     assert (Hle2 : xle (xjoin xa (xout_block xa b)) (xfinal xc t1) = true)
@@ -324,13 +330,14 @@ Lemma spec_ok_failures s : spec_ok s = true -> spec_failures s = [].
 Proof. unfold spec_ok. destruct (spec_failures s); [reflexivity | discriminate]. Qed.
 
 Lemma spec_ok_script s idx body : spec_ok s = true -> In (idx, body) (sp_scripts s) ->
-  check_block idx (top_arg (kind_of idx)) None [] 0 body = [] /\ (0 <= idx < NUM_SCRIPTS)%Z.
+  check_block idx (top_arg (kind_of idx)) None [] 0 body = [] /\ (0 <= idx < NUM_SCRIPTS)%Z /\ body <> [].
 Proof.
   intros H Hin. apply spec_ok_failures in H. unfold spec_failures in H.
   apply app_eq_nil in H as [_ H]. apply app_eq_nil in H as [_ H].
   pose proof (flat_map_nil _ _ H _ Hin) as K. cbn [check_script] in K.
-  apply app_eq_nil in K as [K1 K2]. apply fail_if_nil in K1. apply andb_true_iff in K1 as [A B].
-  apply Z.leb_le in A. apply Z.ltb_lt in B. split; [exact K2 | lia].
+  apply app_eq_nil in K as [K1 K2]. apply app_eq_nil in K2 as [Kn K2]. apply fail_if_nil in Kn.
+  apply fail_if_nil in K1. apply andb_true_iff in K1 as [A B].
+  apply Z.leb_le in A. apply Z.ltb_lt in B. split; [exact K2 | split; [lia | exact (nonempty_neq _ Kn)]].
 Qed.
 
 Lemma spec_ok_login_timeout s : spec_ok s = true ->
@@ -345,7 +352,7 @@ Qed.
 Theorem spec_ok_trace s idx body tr : spec_ok s = true -> In (idx, body) (sp_scripts s) ->
   run (top_arg (kind_of idx)) body tr -> trace_okb idx None tr = true.
 Proof.
-  intros H Hin Hr. destruct (spec_ok_script s idx body H Hin) as [Hc _].
+  intros H Hin Hr. destruct (spec_ok_script s idx body H Hin) as (Hc & _ & _).
   exact (proj1 (run_safe idx _ _ _ Hr None None [] 0%nat Hc eq_refl)).
 Qed.
 
@@ -407,14 +414,16 @@ Proof.
     assert (Hr : scoped_block idx arg r) by (eapply IH; [|exact H2]; lia).
     destruct (loop_body s) as [b|] eqn:EL.
     + rewrite (check_stmt_loop idx arg x (path ++ [i]) s b EL) in H1.
+      apply app_eq_nil in H1 as [Hne H1]. apply fail_if_nil in Hne.
       apply app_eq_nil in H1 as [Hs H1]. apply app_eq_nil in H1 as [_ Hb]. apply fail_if_nil in Hs.
       pose proof (stmt_size_body s b (or_introl EL)) as Sz.
-      eapply sb_loop; [exact EL | exact Hs | eapply IH; [|exact Hb]; lia | exact Hr].
+      eapply sb_loop; [exact EL | exact (nonempty_neq _ Hne) | exact Hs | eapply IH; [|exact Hb]; lia | exact Hr].
     + destruct (if_body s) as [b|] eqn:EI.
       * rewrite (check_stmt_if idx arg x (path ++ [i]) s b EI) in H1.
+        apply app_eq_nil in H1 as [Hne H1]. apply fail_if_nil in Hne.
         apply app_eq_nil in H1 as [Ha Hb]. apply fail_if_nil in Ha. subst arg.
         pose proof (stmt_size_body s b (or_intror EI)) as Sz.
-        eapply sb_if; [exact EI | reflexivity | eapply IH; [|exact Hb]; lia | exact Hr].
+        eapply sb_if; [exact EI | exact (nonempty_neq _ Hne) | reflexivity | eapply IH; [|exact Hb]; lia | exact Hr].
       * eapply sb_other; [exact EL | exact EI | | exact Hr].
         intros p q il ->. cbn [check_stmt] in H1. apply app_eq_nil in H1 as [Hd _].
         apply fail_if_nil in Hd. destruct (no_diag idx); [discriminate | reflexivity].
@@ -423,8 +432,8 @@ Qed.
 Theorem spec_ok_scoped s : spec_ok s = true -> Forall scoped_script (sp_scripts s).
 Proof.
   intros H. apply Forall_forall. intros [idx body] Hin. unfold scoped_script. cbn [fst snd].
-  destruct (spec_ok_script s idx body H Hin) as [Hc _].
-  eapply scoped_of_check; [apply Nat.le_refl | exact Hc].
+  destruct (spec_ok_script s idx body H Hin) as (Hc & _ & Hne).
+  split; [exact Hne | eapply scoped_of_check; [apply Nat.le_refl | exact Hc]].
 Qed.
 
 (* ------------------------------------------------------------------ sends_block lists every send of every run *)
